@@ -310,7 +310,7 @@ def run(ctx):
     if ctx.shard == 0:
         ctx.guard("std", {"std": "all"}, check_std, ctx)
         ctx.guard("helper", {"helper": "all"}, check_helpers, ctx)
-    for i in ctx.mine(ctx.n(1000, 40000)):
+    for i in ctx.mine(ctx.n(1000, 150000)):
         r = ctx.rng("extension", i)
         e = gen_extension(r)
         ctx.case("extension", e, bool(e["types"]) and bool(e["ops"]))
